@@ -640,6 +640,9 @@ def step (H : Hashes) (dirLen : Nat) (s : State) : Op → State × Resp
             | .error e => (s, .err e)
             | .ok ps =>
               if partTooSmall pl.length ps then (s, .err .EntityTooSmall)
+              -- 9bdb75f: the bucket may have been deleted since the upload was created: `get_bucket_path(bucket)?.exists()` (it
+              -- cannot fail where `get_object_path` succeeded); nothing is written then
+              else if !alHas bd s.buckets then (s, .err .NoSuchBucket)
               else
                 let c := (ps.map (·.2)).flatten
                 let (s1, ok) := s.commitFile bd p c
